@@ -44,9 +44,13 @@ def run(ctx):
         "(decided about SSA-derived tables: Props/C17Lock.lean) and never writes a snapshot's backing array after handing "
         "it out (memory-level race freedom) -- observed by the `-race` stress run of this check",
         "re-entrancy (a target calling back into a notifier from HandleNotification/BatchMode) is part of the model: "
-        "Nt.stepRe (Model/NotifierReentry.lean) threads the world through the delivery loops, the armed operation is a "
-        "complete exported call at the moment of the callback (C17.reentrant_call_spec); one level deep (the arm fires "
-        "once); a lock held during delivery shows as a runtime deadlock abort of that line",
+        "Nt.stepQ (Model/NotifierReentryN.lean) threads the world and the QUEUE of armed operations through the delivery "
+        "loops; every re-entrant callback pops the head and performs it as a complete exported call whose own callbacks "
+        "may pop the next one, to any depth (C17.reentrant_deep_spec; depth one = Nt.stepRe, C17.reentrant_call_spec); "
+        "a lock held during delivery shows as a runtime deadlock abort of that line",
+        "Go's inner maps are references; the model holds them as values: justified by C17.heap_model_refines_value_model "
+        "(heap-cell model with the code's copying merge refines the value model along every history) for productionMap; "
+        "nameMap's inner sets are values without such a proof (they do not decide deliveries)",
         "errs.Recovery calls the handler exactly once per panic (C13 territory); the harness counts the handler calls",
         "batchLevel does not overflow int",
     ]
@@ -56,8 +60,8 @@ def run(ctx):
     ctx.harness("./cmd/c17", overlay=OVERLAY)
     th = ("C17.notify_targets / notify_priority_order / no_textual_prefix / "
           "disabled_or_unregistered_or_reset_silent / merge_spec / batch_nesting / maps_consistent / "
-          "panic_does_not_stop_delivery / panic_does_not_stop_batch / panic_step / reentrant_call_spec are theorems about the "
-          "model Nt.step / Nt.stepRe; "
+          "panic_does_not_stop_delivery / panic_does_not_stop_batch / panic_step / reentrant_call_spec / reentrant_deep_spec / batch_cycles_do_not_leak / "
+          "merge_leaves_notifiers_independent are theorems about the model Nt.step / Nt.stepQ; "
           "the implementation differs from that model on this history")
     # black-box protocol: only calls received by targets, recovery reports, BatchLevel(), Enabled()
     ctx.diff(area="notifier", driver="drv_c17", n={"quick": 100000, "thorough": 3000000}, stateful=True,
